@@ -443,7 +443,7 @@ esl_histogram_SetTail(ESL_HISTOGRAM *h, double phi, double *ret_newmass)
    * bin upper bound.
    */
   if ((status = esl_histogram_Score2Bin(h,phi, &(h->cmin))) != eslOK) return status;
-  if (phi == esl_histogram_Bin2UBound(h,h->cmin)) h->phi = phi;
+  if (phi == esl_histogram_Bin2UBound(h,h->cmin)) { h->phi = phi; h->cmin++; } /* phi is the lower bound of the NEXT bin; bin cmin holds values <= phi */
   else   h->phi  = esl_histogram_Bin2LBound(h, h->cmin);
 
   h->z    = 0;
